@@ -3,6 +3,7 @@ package e5
 import (
 	"bytes"
 	"context"
+	"errors"
 	"fmt"
 	"math/rand"
 	"sync/atomic"
@@ -20,7 +21,7 @@ func init() {
 	register(&simk.Prop{
 		ID:    "C35",
 		Level: "exploration",
-		Rule: "seeded networks of 3..4 complete DSMR nodes; one validator (the victim) is unreachable while 1..4 chunks (1..3 transactions each) are built and certified by the others (BLS signature aggregation over the real p2p handlers, quorum (N-1)/N: every reachable validator signs), so it holds none of them; a seeded subset is then handed to it locally; in 35% of the runs every chunk comes from one producer, the per-producer pending-weight limit is lowered to exactly that producer's pending weight and the victim additionally holds 1..2 chunks the producer signed for it alone (delivered through the victim's real signature-request logic); a block referencing all certificates is built by a producer, verified by every node and accepted; the victim's chunk requests are answered by its peers through a fault plan drawn before the run (honest, error, garbage bytes, another valid chunk, truncated bytes; honest after <=6 faulty answers); " +
+		Rule: "seeded networks of 3..4 complete DSMR nodes; one validator (the victim) is unreachable while 1..4 chunks (1..3 transactions each) are built and certified by the others (BLS signature aggregation over the real p2p handlers, quorum (N-1)/N: every reachable validator signs), so it holds none of them; a seeded subset is then handed to it locally; in 35% of the runs every chunk comes from one producer, the per-producer pending-weight limit is lowered to exactly that producer's pending weight and the victim additionally holds 1..2 chunks the producer signed for it alone (delivered through the victim's real signature-request logic); a block referencing all certificates is built by a producer, verified by every node and accepted; in 30% of the runs one chunk write of the victim's own store fails once during its Accept (transient disk error); the victim's chunk requests are answered by its peers through a fault plan drawn before the run (honest, error, garbage bytes, another valid chunk, truncated bytes; honest after <=6 faulty answers); " +
 			"oracle: Accept succeeds on every node and returns exactly the chunks the block's certificates reference, in certificate order, byte-identical to what the producer stored, whether a chunk was local or fetched. non-trivial = >=1 chunk fetched remotely and >=1 local on the victim; distinct = scenario hashes",
 		Exec:        c35,
 		Real:        []string{"x/dsmr.Node (BuildChunk, BuildBlock, Verify, Accept)", "x/dsmr.ChunkStorage + ChunkVerifier", "GetChunkHandler, ChunkSignatureRequestVerifier + acp118 handler/aggregator, certificate gossip handler", "typed p2p clients over avalanchego's in-memory p2p test network", "validity window over chunk certificates", "BLS signing/verification"},
@@ -69,6 +70,11 @@ func c35(r *simk.Run) *simk.Violation {
 			plans[i].producer = plans[0].producer
 		}
 		nExtra = 1 + c.Intn(2)
+	}
+	// a transient local disk fault on the victim: the k-th chunk write during its Accept fails once
+	diskFaultAt := 0
+	if c.Bool(0.3) {
+		diskFaultAt = 1 + c.Intn(3)
 	}
 	nFaulty := c.Intn(7)
 	fp := &faultPlan{}
@@ -205,6 +211,9 @@ func c35(r *simk.Run) *simk.Violation {
 				return
 			}
 			n.remember(blk)
+			if i == victim && diskFaultAt > 0 {
+				n.DB.failIn.Store(int64(diskFaultAt))
+			}
 			done := make(chan struct{})
 			var ex dsmr.ExecutedBlock[dsmrtest.Tx]
 			var aerr error
@@ -237,6 +246,18 @@ func c35(r *simk.Run) *simk.Violation {
 			fp.mu.Lock()
 			lg := append([]string{}, fp.log...)
 			fp.mu.Unlock()
+			if i == victim {
+				n.DB.failIn.Store(0)
+				if n.DB.fired.Load() > 0 {
+					s.FaultFired("victim_chunk_write_error")
+				}
+			}
+			if aerr != nil && i == victim && n.DB.fired.Load() > 0 && errors.Is(aerr, errInjectedDisk) {
+				// the write that failed was not part of a fetch that can be retried (e.g. saving the accepted
+				// chunks): Accept may report the disk error; nothing further to judge in this run
+				s.Probe("accept_reports_injected_disk_error")
+				return
+			}
 			if aerr != nil {
 				cls := "accept-fails"
 				if i == victim && remotes > 0 {
